@@ -60,6 +60,7 @@ def run(ctx):
     ctx.rule(none_default)
     ctx.rule(circshift)
     ctx.rule(windows)
+    ctx.rule(integer_powers)
     ctx.rule(gamma)
     ctx.rule(gauss)
     ctx.rule(angular)
@@ -322,6 +323,33 @@ def windows(ctx, R="R-C20-windows"):
 
 
 # ----------------------------------------------------------------------- gamma
+def integer_powers(ctx, R="R-C20-gamma"):
+    """t ** (order - 1) on an integer-typed NumPy array is computed in int64 and wraps silently once the result passes 2**63
+    (width 520 at order 8, width 130 at order 10): the time axis of the gamma window has to be floating point.  The dtype is
+    inferred (NEP 50 promotion; np.arange takes the type of its arguments, the width is an int)."""
+    from ..dt import DT
+    prog = ctx.prog
+    f = prog.own_method(prog.cls("filters.GammaWindow"), "get_impulse_response")
+    dt = DT(prog, f)
+    n = 0
+    INTS = {"i8", "i16", "i32", "i64", "u8", "u16", "u32", "u64"}
+    for x in f.body_nodes():
+        if isinstance(x, ast.BinOp) and isinstance(x.op, ast.Pow):
+            if isinstance(x.right, ast.Constant) and isinstance(x.right.value, int) and 0 <= x.right.value <= 3:
+                continue
+            n += 1
+            tags = dt.of(x.left)
+            if tags and tags <= INTS:
+                ctx.bad(R, f, x, "`%s` raises an array of dtype %s to a power the caller chooses: the result is computed in 64-bit integers and wraps around without "
+                        "warning once it passes 2**63 (order 8 from a width of about 520, order 10 from about 130): samples come out negative or garbage"
+                        % (astq.text(x)[:50], "/".join(sorted(tags))), "the powers of the time axis are computed in floating point", robust=True)
+            elif tags & INTS or "unknown" in tags:
+                ctx.error(R, "cannot decide the dtype `%s` is computed in: %s" % (astq.text(x)[:50], sorted(tags)))
+            else:
+                ctx.ok(R, f.loc(x), "the powers of the time axis are computed in floating point", "base dtype %s" % sorted(tags))
+    ctx.floor(R + "/powers", n, 1)
+
+
 def gamma(ctx, R="R-C20-gamma"):
     prog = ctx.prog
     c = prog.module("filters").classes.get("GammaWindow")
